@@ -174,7 +174,14 @@ fn context(kind: u64, id: u32, inner: &str) -> String {
         8 => format!("def w{id}() {{ {inner} }}"),
         9 => format!("def w{id}() {{ if (true) {{ {inner} }} }}"),
         10 => format!("while (true) {{ if (true) {{ {inner} }} }}"),
-        _ => format!("gate w{id}(th) e0, e1 {{ while (true) {{ {inner} }} }}"),
+        11 => format!("gate w{id}(th) e0, e1 {{ while (true) {{ {inner} }} }}"),
+        // brace-less single-statement bodies (exactly one statement inside): each is a scope of its own
+        12 => format!("if (true) {inner}"),
+        13 => format!("if (true) ; else {inner}"),
+        14 => format!("while (true) {inner}"),
+        15 => format!("for int i{id} in [0:1] {inner}"),
+        16 => format!("if (false) ; else if (true) ; else {inner}"),
+        _ => format!("def w{id}() {{ if (true) ; else {inner} }}"),
     }
 }
 fn context_scope(kind: u64) -> char {
@@ -203,12 +210,16 @@ pub fn run(args: &[String]) {
         let mut descs = Vec::new();
         let mut id = 0u32;
         for _ in 0..ngroups {
-            let kind = if case < 12 * nshards { (case / nshards) % 12 } else { rng.below(12) };
+            let kind = if case < 18 * nshards { (case / nshards) % 18 } else { rng.below(18) };
             let sc = context_scope(kind);
-            let k = 1 + rng.below(3);
+            let k = if kind >= 12 { 1 } else { 1 + rng.below(3) };
             let mut inner = String::new();
             for _ in 0..k {
-                let s = gen_site(&mut rng, sc, &mut id);
+                let mut s = gen_site(&mut rng, sc, &mut id);
+                // a brace-less body is one statement
+                while kind >= 12 && (s.text.matches(';').count() != 1 || s.text.contains('{')) {
+                    s = gen_site(&mut rng, sc, &mut id);
+                }
                 inner.push_str(&s.text);
                 inner.push(' ');
                 descs.push(s.desc);
